@@ -148,7 +148,7 @@ def cellUpdates [Val V] (d : MDecl V) (t : V) : Action V → List (CellUpd V)
     | _ => []
   | .reset =>
     match d.decl.kind with
-    | .counter => [.set 0 Val.zero none]                       -- self._value.set(0)
+    | .counter => [.set 0 Val.zero none]                       -- self._value.set(0.0)
     | _ => []
   | .observe a =>
     match d.decl.kind with
